@@ -3,6 +3,7 @@ import LeanHelix.Driver.Kernels
 import LeanHelix.Driver.Filter
 import LeanHelix.Driver.Node
 import LeanHelix.Driver.BlockProof
+import LeanHelix.Driver.Wire
 /-!
 `lhdriver <suite>`: reads one operation per line on stdin, runs the *model*, prints one output
 line per operation.  `bin/check` diffs this stream against what the Go harness observed on the
@@ -30,6 +31,12 @@ partial def loopStateful {σ} (h : IO.FS.Stream) (out : IO.FS.Stream) (st : σ)
   | some (st', s) => out.putStrLn s; loopStateful h out st' f
   | none => out.putStrLn "bad-op"; loopStateful h out st f
 
+partial def loopLines (h : IO.FS.Stream) (out : IO.FS.Stream) (f : String → String) : IO Unit := do
+  let line ← h.getLine
+  if line.isEmpty then return ()
+  out.putStrLn (f line.trimAscii.toString)
+  loopLines h out f
+
 def loopsStep_loop (i o : IO.FS.Stream) : IO Unit := loopStateful i o (([], []) : LNodes × Nodes) mixedStep
 
 def main (args : List String) : IO UInt32 := do
@@ -45,5 +52,6 @@ def main (args : List String) : IO UInt32 := do
   | ["blockproof"] => loopStateless stdin stdout blockProofStep; return 0
   | ["trigger"] => loopStateful stdin stdout ({} : Trigger.Trig) triggerStep; return 0
   | ["loops"] => loopsStep_loop stdin stdout; return 0
+  | ["wire"] => loopLines stdin stdout LeanHelix.WireDriver.wireLine; return 0
   | ["node"] => loopStateful stdin stdout ([] : Nodes) nodeStep; return 0
   | _ => IO.eprintln "usage: lhdriver <suite>"; return 2
